@@ -118,3 +118,146 @@ FUNCTIONS = [O + "Filter.execute"]
 ASSUMPTIONS = ["Filter.execute: the region from `N = len(kernel)` on is under contract (kernel already a list of non-negative weights); "
                "kernel preparation (Kernel object -> toSlidingWindow, normalisation of a list by its sum) is bounded only",
                "signal at least as long as the window; every window holds a non-NaN sample with positive weight (else the code divides by zero)"]
+
+
+# ---------------------------------------------------------------------------- Kernel.toSlidingWindow
+K = "tracklib.core.kernel:Kernel."
+KF = z3.Function("kernel_fn", I_, R_, R_)                  # the kernel's function (abstract), per Kernel object
+KSUM = z3.Function("kernel_sum", I_, R_, I_, I_, R_)       # (kernel, support, m, k) -> sum over r < k of EV(m - r)
+
+
+def z_ev(k, supp, x):
+    return z3.If(z3.And(x <= supp, -x <= supp), KF(k, x), z3.RealVal(0))
+
+
+def ax_ksum():
+    k, m, n = z3.Ints("k!s m!s n!s")
+    s = z3.Real("s!s")
+    return [z3.ForAll([k, s, m, n], z3.Implies(n <= 0, KSUM(k, s, m, n) == 0), patterns=[KSUM(k, s, m, n)]),
+            z3.ForAll([k, s, m, n], z3.Implies(n > 0, KSUM(k, s, m, n) == KSUM(k, s, m, n - 1) + z_ev(k, s, z3.ToReal(m - (n - 1)))),
+                      patterns=[KSUM(k, s, m, n)])]
+
+
+def sf_ev(ex, st, kern, x):
+    supp = to_float(ex.read_field(st, kern, "support"))[1]
+    return vfloat(z_ev(kern.terms[0], supp, to_float(x)[1]))
+
+
+def sf_ksum(ex, st, kern, m, n):
+    supp = to_float(ex.read_field(st, kern, "support"))[1]
+    return vfloat(KSUM(kern.terms[0], supp, to_int(m), to_int(n)))
+
+
+def sf_kernel_ok(ex, st, kern):
+    """assumptions on the kernel's function: even, non-negative on its support, positive at 0"""
+    x = z3.Real(uid("kx"))
+    k = kern.terms[0]
+    supp = to_float(ex.read_field(st, kern, "support"))[1]
+    return vbool(z3.And(z3.ForAll([x], KF(k, -x) == KF(k, x)),
+                        z3.ForAll([x], z3.Implies(z3.And(x <= supp, -x <= supp), KF(k, x) >= 0)),
+                        KF(k, 0) > 0))
+
+
+def sf_sum_scaled(ex, st, l, kern, m, norm, n):
+    """instance of lemma sum-of-scaled-window (induction, lemmas()): if every cell r < n of l is non-NaN with
+    l[r] * norm == EV(m - r) then sumnn(l, k) * norm == KSUM(k) for every k <= n"""
+    from pyvc.stdspec import SUMNN
+    supp = to_float(ex.read_field(st, kern, "support"))[1]
+    return vbool(z_sum_scaled(l.terms[1], l.terms[2], kern.terms[0], supp, to_int(m), to_float(norm)[1], to_int(n)))
+
+
+def z_sum_scaled(ln, lv, k, supp, m, norm, n):
+    from pyvc.stdspec import SUMNN
+    r, kk = z3.Int(uid("sr")), z3.Int(uid("sk"))
+    pre = z3.ForAll([r], z3.Implies(z3.And(0 <= r, r < n), z3.And(z3.Not(z3.Select(ln, r)),
+                                                                 z3.Select(lv, r) * norm == z_ev(k, supp, z3.ToReal(m - r)))))
+    return z3.Implies(pre, z3.ForAll([kk], z3.Implies(z3.And(0 <= kk, kk <= n), SUMNN(ln, lv, kk) * norm == KSUM(k, supp, m, kk))))
+
+
+def register_kernel(reg):
+    reg.field("Kernel", "support", "real")
+    reg.specfuncs.update(ev=sf_ev, ksum=sf_ksum, kernel_ok=sf_kernel_ok, sum_scaled=sf_sum_scaled)
+    reg.axioms.append(("kernel_sum", ax_ksum))
+    reg.add(Spec(K + "evaluate", dict(self="Kernel", x="float"), "float", trusted=True,
+                 requires=["not isnan(x)"],
+                 ensures=[("function-inside-the-support-else-zero", "not isnan(result) and result == ev(self, x)")]))
+    M = "int(self.support)"
+    reg.add(Spec(K + "toSlidingWindow", dict(self="Kernel"), "list[float]",
+                 requires=["kernel_ok(self)"],
+                 raises={"KernelError": "self.support < 1"},
+                 locals=dict(values="list[float]"),
+                 at={"for i in range(size):": [("centre-weight-positive", "norm > 0")],
+                     "for i in range(size):#2": ["use sum_scaled(values, self, %s, norm, size)" % M]},
+                 loops={"1": LoopSpec(inv=["len(values) == size",
+                                           "all(not isnan(values[r]) and values[r] == ev(self, %s - r) and values[r] >= 0 for r in range(0, i))" % M,
+                                           "not isnan(norm) and norm >= 0 and norm == ksum(self, %s, i)" % M,
+                                           "implies(i > %s, norm > 0)" % M]),
+                        "2": LoopSpec(inv=["len(values) == size", "norm > 0 and norm == ksum(self, %s, size)" % M,
+                                           "all(not isnan(values[r]) and values[r] * norm == ev(self, %s - r) and values[r] >= 0 for r in range(0, i))" % M,
+                                           "all(not isnan(values[r]) and values[r] == ev(self, %s - r) and values[r] >= 0 for r in range(i, size))" % M],
+                                      hints=["use mul_nonneg(values[i - 1], norm)"])},
+                 ensures=[("odd-length", "len(result) == 2 * %s + 1" % M),
+                          ("non-negative", "all(not isnan(result[r]) and result[r] >= 0 for r in range(0, len(result)))"),
+                          ("symmetric", "all(result[r] == result[len(result) - 1 - r] for r in range(0, len(result)))"),
+                          ("sums-to-one", "sumnn(result, len(result)) == 1")]))
+
+
+def lemmas(reg):
+    """sum-of-scaled-window, by induction on k."""
+    from pyvc.stdspec import SUMNN, ax_sumnn
+    ln, lv = z3.Const("ln!q", _B), z3.Const("lv!q", _R)
+    k, m, n, kk, r = z3.Ints("k!q m!q n!q kk!q r!q")
+    supp, norm = z3.Reals("supp!q norm!q")
+    pre = z3.ForAll([r], z3.Implies(z3.And(0 <= r, r < n), z3.And(z3.Not(z3.Select(ln, r)),
+                                                                 z3.Select(lv, r) * norm == z_ev(k, supp, z3.ToReal(m - r)))))
+    stmt = lambda j: SUMNN(ln, lv, j) * norm == KSUM(k, supp, m, j)
+    ax = ax_sumnn() + ax_ksum()
+    return kernel_lemmas(reg) + [("sum-of-scaled-window:base", ax + [pre], stmt(z3.IntVal(0))),
+            ("sum-of-scaled-window:step", ax + [pre, 0 <= kk, kk < n, stmt(kk)], stmt(kk + 1))]
+
+
+def kernel_lemmas(reg):
+    """The assumptions made on the abstract kernel function (even, non-negative on the support, positive at 0) are
+    proved for the lambda of every built-in non-negative kernel, extracted from the constructors' source."""
+    import ast as _ast
+    from pyvc.symexec import Executor, Ctx, State
+    from pyvc import mathlib
+    out = []
+    for cls in ("UniformKernel", "TriangularKernel", "GaussianKernel", "ExponentialKernel", "EpanechnikovKernel", "CubicKernel", "SphericKernel"):
+        fi = reg.index.funcs.get("tracklib.core.kernel:%s.__init__" % cls)
+        if fi is None:
+            continue
+        lam = next((x for x in _ast.walk(fi.node) if isinstance(x, _ast.Lambda) and len(x.args.args) == 1), None)
+        sup = next((x.value for x in _ast.walk(fi.node) if isinstance(x, _ast.Assign) and isinstance(x.targets[0], _ast.Attribute)
+                    and x.targets[0].attr == "support"), None)
+        if lam is None or sup is None:
+            continue
+        pname = fi.node.args.args[1].arg
+        ctx = Ctx(reg, "C15/" + cls)
+        ex = Executor(ctx, fi, None)
+        p = z3.Real("param!" + cls)
+        x = z3.Real("x!" + cls)
+
+        def f(xv):
+            st = State({lam.args.args[0].arg: vfloat(xv), pname: vfloat(p)}, {}, TRUE)
+            return to_float(ex.eval(lam.body, st))[1]
+        supp = to_float(ex.eval(sup, State({pname: vfloat(p)}, {}, TRUE)))[1]
+        fx, fmx, f0 = f(x), f(-x), f(z3.RealVal(0))
+        hyps = [p > 0] + list(ctx.hyps) + mathlib.axioms(ctx.math_used | {"exp", "sqrt"})
+        out += [("kernel-function-even:" + cls, hyps, fmx == fx),
+                ("kernel-function-nonnegative-on-support:" + cls, hyps + [x <= supp, -x <= supp], fx >= 0),
+                ("kernel-function-positive-at-0:" + cls, hyps, f0 > 0)]
+    return out
+
+
+_register_filter = register
+
+
+def register(reg):  # noqa: F811
+    _register_filter(reg)
+    register_kernel(reg)
+
+
+FUNCTIONS = [O + "Filter.execute", K + "toSlidingWindow"]
+ASSUMPTIONS += ["Kernel.evaluate (numpy.vectorize) is trusted: the kernel's function inside the support, 0 outside",
+                "toSlidingWindow: the kernel's function is abstract, assumed even, non-negative on the support and positive at 0"]
